@@ -87,7 +87,7 @@ def rule_R12_2(ctx):
                         out.add("err." + v)
                 elif e.startswith("call."):
                     n = e[5:]
-                    if n in ("new_val_ref_with_source", "binary_operation_assign"):
+                    if n in ("new_val_ref_with_source", "with_source", "binary_operation_assign"):
                         out.add(e)
             return out
         a, b = norm(idx), norm(prop)
